@@ -1845,4 +1845,157 @@ theorem renameLayersE_cells {m : NameMap} : ∀ {ls r : List Layer}, renameLayer
           simp [List.map_map, Function.comp_def]
         · simp at hl
 
+/-! ## save / load at the object level -/
+
+theorem copyArrs_spec : ∀ (as : List Arr) (h : Heap), (∀ a ∈ as, ArrOK h a) →
+    (copyArrs as h).1.map (viewLayer (copyArrs as h).2) = as.map (viewLayer h) ∧
+      Grows h (copyArrs as h).2 ∧ (∀ a ∈ (copyArrs as h).1, ArrOK (copyArrs as h).2 a) ∧
+      (∀ a ∈ (copyArrs as h).1, ∀ e ∈ a.fields, h.cells.length ≤ e.2) := by
+  intro as
+  induction as with
+  | nil => intro h _; exact ⟨rfl, Grows.refl _, by simp [copyArrs], by simp [copyArrs]⟩
+  | cons a t ih =>
+    intro h has
+    have hg1 := copyArr_grows h a
+    have hok1 := copyArr_ok h a
+    have hast : ∀ b ∈ t, ArrOK h b := fun b hb => has b (by simp [hb])
+    obtain ⟨hv2, hg2, hok2, hf2⟩ := ih (h.copyArr a).2 (fun b hb => (hast b hb).mono hg1)
+    simp only [copyArrs, List.map_cons]
+    refine ⟨?_, hg1.trans hg2, ?_, ?_⟩
+    · rw [hv2, hg2.viewLayer hok1, copyArr_view, hg1.viewLayers hast]
+    · intro b hb
+      rcases List.mem_cons.1 hb with rfl | hb
+      · exact hok1.mono hg2
+      · exact hok2 b hb
+    · intro b hb
+      rcases List.mem_cons.1 hb with rfl | hb
+      · exact copyArr_fresh h a
+      · exact fun e he => Nat.le_trans hg1.1 (hf2 b hb e he)
+
+theorem freshEntries_spec (h0 : Heap) : ∀ (g out : IdDict) (h : Heap),
+    (∀ e ∈ g, e.2 < h0.cals.length) → GrowsC h0 h → (∀ e ∈ out, e.2 < h.cals.length) →
+    viewDict (freshEntries g out h).2 (freshEntries g out h).1 = viewDict h out ++ viewDict h0 g ∧
+    GrowsC h (freshEntries g out h).2 ∧
+    (∀ e ∈ (freshEntries g out h).1, e.2 < (freshEntries g out h).2.cals.length) := by
+  intro g
+  induction g with
+  | nil =>
+    intro out h _ _ hout
+    simp only [freshEntries, viewDict, mapV_nil, List.append_nil]
+    exact ⟨trivial, GrowsC.refl _, hout⟩
+  | cons e r ih =>
+    intro out h hg hgr hout
+    have he : e.2 < h0.cals.length := hg e (by simp)
+    have hga := growsC_alloc h (h.calOf e.2)
+    have hnew : (h.allocCal (h.calOf e.2)).2.calOf h.cals.length = h0.calOf e.2 := by
+      rw [allocCal_calOf_new, hgr.calOf he]
+    have hlen : (h.allocCal (h.calOf e.2)).2.cals.length = h.cals.length + 1 := by simp [Heap.allocCal]
+    have hout' : ∀ x ∈ out ++ [(e.1, h.cals.length)], x.2 < (h.allocCal (h.calOf e.2)).2.cals.length := by
+      intro x hx
+      rcases List.mem_append.1 hx with h1 | h1
+      · have := hout x h1; rw [hlen]; omega
+      · simp only [List.mem_singleton] at h1; subst h1; rw [hlen]; exact Nat.lt_succ_self _
+    obtain ⟨i1, i2, i3⟩ := ih (out ++ [(e.1, h.cals.length)]) (h.allocCal (h.calOf e.2)).2
+      (fun x hx => hg x (by simp [hx])) (hgr.trans hga) hout'
+    simp only [freshEntries]
+    refine ⟨?_, hga.trans i2, i3⟩
+    rw [i1]
+    simp only [viewDict, mapV_append, mapV_cons, mapV_nil, List.append_assoc, List.singleton_append]
+    rw [hnew]
+    congr 1
+    exact mapV_congr (fun x hx => hga.calOf (hout x hx))
+
+theorem hRoundTrip_spec (w w' : World) (hv : Valid w) (hw : hRoundTrip w = some w') :
+    view w' = mkState w.laser.srr (view w).layers (some (view w).cal) (view w).cfg ∧ Valid w' ∧
+    (∀ a ∈ w'.laser.data, ∀ e ∈ a.fields, w.heap.cells.length ≤ e.2) ∧
+    ∀ F : Foreign, (∀ k ∈ F.cals, k < w.heap.cals.length) → (∀ k ∈ F.dicts, k < w.heap.dicts.length) →
+      (∀ k ∈ F.cfgs, k < w.heap.cfgs.length) → Sep F w' := by
+  unfold hRoundTrip at hw
+  obtain ⟨a1, a2, a3, a4⟩ := copyArrs_spec w.laser.data w.heap hv.data_ok
+  generalize hd : copyArrs w.laser.data w.heap = d at hw a1 a2 a3 a4
+  obtain ⟨dl, dh⟩ := d
+  simp only at hw a1 a2 a3 a4
+  have hdict : dh.dict w.laser.cal = w.heap.dict w.laser.cal := a2.dict _
+  have hcl : ∀ e ∈ dh.dict w.laser.cal, e.2 < dh.cals.length := by
+    rw [hdict, a2.2.2.1]; exact hv.cal_lt
+  obtain ⟨b1, b2, b3⟩ := freshEntries_spec dh (dh.dict w.laser.cal) [] dh hcl (GrowsC.refl _) (by simp)
+  generalize he : freshEntries (dh.dict w.laser.cal) [] dh = e at hw b1 b2 b3
+  obtain ⟨ed, eh⟩ := e
+  simp only at hw b1 b2 b3
+  -- the loader's config
+  generalize hk : loadCfg (eh.allocDict ed).2 (Heap.cfgOf (eh.allocDict ed).2 w.laser.cfg) = k at hw
+  have hcfgeq : (eh.allocDict ed).2.cfgs = w.heap.cfgs := by
+    show eh.cfgs = _
+    rw [b2.2.2.2.1, a2.2.2.2.1]
+  have hkP : k.2.cells = eh.cells ∧ k.2.cals = eh.cals ∧ k.2.dicts = eh.dicts ++ [ed] ∧ k.1 = w.heap.cfgs.length ∧
+      k.2.cfgs.length = w.heap.cfgs.length + 1 ∧ (k.2.cfgOf k.1).scal = (w.heap.cfgOf w.laser.cfg).scal := by
+    have hc0 : Heap.cfgOf (eh.allocDict ed).2 w.laser.cfg = w.heap.cfgOf w.laser.cfg := cfgOf_congr hcfgeq _
+    subst hk
+    rw [hc0]
+    unfold loadCfg
+    cases (w.heap.cfgOf w.laser.cfg).offs with
+    | some o =>
+      refine ⟨rfl, rfl, rfl, ?_, ?_, ?_⟩
+      · show (eh.allocDict ed).2.cfgs.length = _
+        rw [hcfgeq]
+      · show ((eh.allocDict ed).2.cfgs ++ [_]).length = _
+        rw [hcfgeq]; simp
+      · show (Heap.cfgOf ⟨_, _, (eh.allocDict ed).2.cfgs ++ [_], _, _⟩ (eh.allocDict ed).2.cfgs.length).scal = _
+        unfold Heap.cfgOf
+        simp
+    | none =>
+      refine ⟨rfl, rfl, rfl, ?_, ?_, ?_⟩
+      · show (eh.allocDict ed).2.cfgs.length = _
+        rw [hcfgeq]
+      · show ((eh.allocDict ed).2.cfgs ++ [_]).length = _
+        rw [hcfgeq]; simp
+      · show (Heap.cfgOf ⟨_, _, (eh.allocDict ed).2.cfgs ++ [_], _, _⟩ (eh.allocDict ed).2.cfgs.length).scal = _
+        unfold Heap.cfgOf
+        simp
+  obtain ⟨k1, k2, k3, k4, k5, k6⟩ := hkP
+  have hcells : k.2.cells = dh.cells := by rw [k1, b2.1]
+  have hdk : k.2.dict eh.dicts.length = ed := by
+    unfold Heap.dict; rw [k3]; simp
+  have hdOK : ∀ a ∈ dl, ArrOK k.2 a := by
+    intro a ha e he'
+    show e.2 < k.2.cells.length
+    rw [hcells]; exact a3 a ha e he'
+  have hgOK : ∀ g, some (eh.allocDict ed).1 = some g → ∀ x ∈ k.2.dict g, x.2 < k.2.cals.length := by
+    intro g hg x hx
+    simp only [Option.some.injEq] at hg
+    subst hg
+    rw [show (eh.allocDict ed).1 = eh.dicts.length from rfl, hdk] at hx
+    rw [k2]
+    exact b3 x hx
+  obtain ⟨s1, s2, s3, _, _, _, _, _, _, _, _, _⟩ :=
+    hConstruct_spec k.2 w.laser.srr dl (some (eh.allocDict ed).1) (some k.1) w' hdOK hgOK hw
+  refine ⟨?_, s2, ?_, ?_⟩
+  · rw [s1]
+    simp only [Option.map_some, Option.getD_some]
+    congr 1
+    · rw [viewLayer_congr hcells]
+      exact a1
+    · congr 1
+      rw [show (eh.allocDict ed).1 = eh.dicts.length from rfl, hdk]
+      have : viewDict k.2 ed = viewDict eh ed := viewDict_congr (fun x _ => by unfold Heap.calOf; rw [k2])
+      rw [this, b1, hdict]
+      simp only [viewDict, mapV_nil, List.nil_append]
+      exact mapV_congr (fun x _ => a2.calOf x.2)
+  · rw [s3]; exact a4
+  · intro F f1 f2 f3
+    apply hConstruct_sep hdOK hgOK hw F
+    refine ⟨fun x hx => ?_, fun x hx => ?_, fun x hx => ?_⟩
+    · rw [k2]
+      have := b2.2.1
+      rw [a2.2.2.1] at this
+      exact Nat.lt_of_lt_of_le (f1 x hx) this
+    · rw [k3]
+      have : eh.dicts = w.heap.dicts := b2.2.2.2.2.2.trans a2.2.2.2.2.2
+      rw [this]
+      have := f2 x hx
+      simp; omega
+    · rw [k5]
+      have := f3 x hx
+      omega
+
 end Pew.LaserEdit
